@@ -384,6 +384,7 @@ pub struct Ctx {
     observers: RefCell<Vec<Vec<Ob>>>,
     /// creation index of a typed node ↦ how to observe it
     typed: RefCell<HashMap<usize, Rc<dyn Fn() -> Ob>>>,
+    dead_reads: RefCell<Option<Vec<String>>>,
     tokens: RefCell<Vec<SubscriptionToken>>,
 }
 
@@ -1386,9 +1387,6 @@ fn action(ctx: &C, toks: &[&str]) -> String {
         }
         ["dropall"] => {
             // drop every handle, then the state: none of it may panic (a double panic aborts the process)
-            let obs: Vec<Vec<Ob>> =
-                ctx.observers.borrow_mut().iter_mut().map(std::mem::take).collect();
-            drop(obs);
             ctx.typed.borrow_mut().clear();
             let vars = std::mem::take(&mut *ctx.vars.borrow_mut());
             drop(vars);
@@ -1406,6 +1404,22 @@ fn action(ctx: &C, toks: &[&str]) -> String {
             drop(ms);
             let st = ctx.state.borrow_mut().take();
             drop(st);
+            // the observer handles outlive the state for a moment: what they answer now is shown in this action's
+            // `read` line (a dropped engine answers ObservingInvalid), then they are dropped too
+            let dead: Vec<String> = ctx
+                .observers
+                .borrow()
+                .iter()
+                .enumerate()
+                .map(|(o, clones)| match clones.first() {
+                    Some(ob) => format!("o{}={}", o, render_read(ob.try_get_value())),
+                    None => format!("o{}=gone", o),
+                })
+                .collect();
+            *ctx.dead_reads.borrow_mut() = Some(dead);
+            let obs: Vec<Vec<Ob>> =
+                ctx.observers.borrow_mut().iter_mut().map(std::mem::take).collect();
+            drop(obs);
             if CYCLE_MISUSE.with(|c| c.get()) {
                 "ok live=cycle".into()
             } else {
@@ -1520,6 +1534,7 @@ pub fn run() {
         var_handles: RefCell::new(vec![]),
         observers: RefCell::new(vec![]),
         typed: RefCell::new(HashMap::new()),
+        dead_reads: RefCell::new(None),
         tokens: RefCell::new(vec![]),
     });
     let out = std::io::stdout();
@@ -1615,7 +1630,10 @@ pub fn run() {
         });
         // reads
         let state_alive = ctx.state.borrow().is_some();
-        let reads: Vec<String> = {
+        let dead_reads = ctx.dead_reads.borrow_mut().take();
+        let reads: Vec<String> = if let Some(d) = dead_reads {
+            d
+        } else {
             let obs = ctx.observers.borrow();
             obs.iter()
                 .enumerate()
